@@ -133,6 +133,9 @@ type Iface struct {
 	DocLines  []string   `json:"doc_lines,omitempty"`
 	Generate  bool       `json:"generate,omitempty"` // emit a //go:generate line as doc
 	Methods   []*Method  `json:"methods"`
+	// Embeds lists interfaces of the same file that this one embeds; their methods are listed in Methods as well
+	// (they are methods of this interface) but are rendered only where they are declared.
+	Embeds []*Iface `json:"-"`
 }
 
 // Scenario is one generated package plus the record of intent.
@@ -218,7 +221,17 @@ func RenderIface(it *Iface) string {
 		sb.WriteString("//go:generate go run github.com/reedom/convergen\n")
 	}
 	fmt.Fprintf(&sb, "type %s interface {\n", it.Name)
+	inherited := map[*Method]bool{}
+	for _, e := range it.Embeds {
+		sb.WriteString("\t" + e.Name + "\n")
+		for _, m := range e.Methods {
+			inherited[m] = true
+		}
+	}
 	for _, m := range it.Methods {
+		if inherited[m] {
+			continue
+		}
 		sb.WriteString(RenderMethodDoc(m))
 		sb.WriteString("\t" + m.Sig())
 		if m.Trailing != "" {
